@@ -109,12 +109,19 @@ def run(ctx):
     ctx.rule = RULE
     ctx.lean_check("Mashu.Props.C11", THEOREMS, extra_targets=["Mashu.Dispatch"])
     decode.run_decode(ctx, CORPUS_DEC, judge_decode)
+    for mode, cs in decode.fixed_corpus(ctx).items():
+        decode.run_decode(ctx, cs, judge_decode, annot=mode)
     n = 2000 if ctx.tier == "quick" else 30000
     done = 0
     while done < n and ctx.time_left() > 40:
         k = min(2000, n - done)
         dec, enc = gen_cases(ctx, k)
         decode.run_decode(ctx, dec, judge_decode)
+        if ctx.time_left() > 60:
+            for mode in (True, "newtype", "typealias"):
+                dec2, enc2 = gen_cases(ctx, max(100, k // 8))
+                decode.run_decode(ctx, dec2, judge_decode, annot=mode)
+                c02.run_stream(ctx, enc2, annot=mode)
         c02.run_stream(ctx, enc)   # encode_U(v) == encode_member(v): the C02 stream on union schemas (K10 classified there)
         done += k
 
@@ -122,7 +129,7 @@ def run(ctx):
 def replay(ctx, body):
     c = body["case"]
     if "input" in c:
-        decode.run_decode(ctx, [(c["ty"], c["input"], c.get("entry", "codec"), "replay")], judge_decode)
+        decode.run_decode(ctx, [(c["ty"], c["input"], c.get("entry", "codec"), "replay")], judge_decode, annot=c.get("annot", False))
     else:
-        c02.run_stream(ctx, [(c["ty"], c["value"], c.get("entry", "codec"))])
+        c02.run_stream(ctx, [(c["ty"], c["value"], c.get("entry", "codec"))], annot=c.get("annot", False))
     return ctx.finish()
